@@ -54,7 +54,7 @@ struct PProg {
     pipeline_inv: bool,
     globals: usize,
     plus: u8,   // 0 none, 1 all, 2 mixed
-    layout: u8, // 0 single line, 1 newline per step, 2 comments + CRLF, 3 tab-indented lines, 4 comments containing a pipe character
+    layout: u8, // 0 single line, 1 newline per step, 2 comments + CRLF, 3 tab-indented lines, 4 comments containing a pipe character, 5 blanks around every '='
     explicit_pipeline: bool,
     mod_first: bool, // modifier written before proj=
 }
@@ -114,6 +114,7 @@ fn render_proj(p: &PProg) -> String {
         1 => lines.join("\n"),
         2 => format!("# a PROJ pipeline\r\n{}\r\n", lines.join("   # trailing comment\r\n")),
         3 => lines.join("\n\t"),
+        5 => lines.join(" ").replace('=', " = "),
         _ => format!("# geodesy: a | b\n{}\n", lines.join("   # was: x | y\n")),
     }
 }
@@ -277,7 +278,7 @@ fn enumerate(rep: &Report, kinds: &[usize], len: usize, label: &str, keep: &(dyn
     let step_variants: Vec<PStep> = kinds.iter().flat_map(|&k| (0..6u8).map(move |m| PStep { kind: k, modifier: m })).collect();
     let a = step_variants.len();
     // options: pipeline_inv(2) x globals(5) x plus(3) x layout(5) x explicit(2) x mod_first(2)
-    let opt_radix = [2usize, GLOBALS.len(), 3, 5, 2, 2];
+    let opt_radix = [2usize, GLOBALS.len(), 3, 6, 2, 2];
     let nopt = product(&opt_radix);
     let total = a.pow(len as u32) * nopt;
     let outcomes = Mutex::new(HashSet::new());
@@ -430,7 +431,7 @@ pub fn run(tier: Tier) -> Report {
     match tier {
         Tier::Quick => {
             // o = [pipeline inv, globals, plus style, layout, explicit, modifier first]
-            enumerate(&rep, &all, 2, "all^2 (layouts 0,2,3,4)", &|o: &[usize]| o[3] != 1);
+            enumerate(&rep, &all, 2, "all^2 (layouts 0,2,3,5; no pipeline-level parameters with layout 4)", &|o: &[usize]| o[3] != 1 && (o[3] != 4 || o[1] == 0));
             enumerate(&rep, &[1, 4], 3, "two^3 (no plus signs, layouts 0,3)", &|o: &[usize]| o[2] == 0 && (o[3] == 0 || o[3] == 3));
         }
         Tier::Thorough => {
